@@ -397,7 +397,9 @@ def check(rep, tier, seed):
                             f"decoding List nested {n} levels deep on the {where} stack does not return: {res}"))
     # the same for a list type WITH an evolution step: every level is a record with a header and chunks, and the decoder
     # keeps a region per open level
-    for n, where in ((31, "main"), (32, "thread"), (33, "main"), (40, "thread"), (100, "main"), (300, "thread"), (1000, "main")):
+    for n, where in ((15, "main"), (16, "thread"), (17, "main"), (31, "main"), (32, "thread"), (33, "main"), (40, "thread"),
+                     (63, "main"), (64, "thread"), (65, "main"), (100, "main"), (127, "thread"), (128, "main"), (129, "thread"),
+                     (255, "main"), (256, "thread"), (257, "main"), (300, "thread"), (1000, "main")):
         p = C.run([harness, "deep", str(n), where, "ev"], timeout=120, check=False)
         out = (p.stdout or "").strip().splitlines()
         res = out[-1] if out and out[-1].startswith("DEEP") else f"abort rc={p.returncode}"
